@@ -320,31 +320,40 @@ Lemma enc_varint_nonempty : forall n, enc_varint n <> [].
 Proof. intros n H. pose proof (enc_varint_length n). rewrite H in H0. cbn in H0. lia. Qed.
 
 (* ---- repeated (non-packed) fields: BytesArray / Strings / Decodables ---- *)
-Lemma rep_loop_at : forall A (elem : reader -> res (A * reader)) (w : A -> list N) (ok : A -> Prop) fn lm,
+Lemma flat_map_len_ge : forall A (f : A -> list N) l, (forall v, (1 <= length (f v))%nat) -> (length l <= length (flat_map f l))%nat.
+Proof.
+  intros A f l Hf. induction l as [|v l IH]; cbn [flat_map length]; [lia|].
+  rewrite app_length. specialize (Hf v). lia.
+Qed.
+
+Lemma rep_loop_at : forall A B (elem : reader -> res (B * reader)) (w : A -> list N) (g : A -> B) (ok : A -> Prop) fn lm,
   fn_ok fn ->
-  (forall v pre post, ok v -> elem (at_ pre (w v ++ post) lm) = Ok (v, at_ (pre ++ w v) post lm)) ->
+  (forall v pre post, ok v -> (Z.of_nat (length (pre ++ w v ++ post)) < 2^62)%Z ->
+     elem (at_ pre (w v ++ post) lm) = Ok (g v, at_ (pre ++ w v) post lm)) ->
   forall l fuel pre post, Forall ok l -> (length l < fuel)%nat ->
   let W := flat_map (fun v => write_key 2 fn ++ w v) l in
+  (Z.of_nat (length (pre ++ W ++ post)) < 2^62)%Z ->
   (Z.of_nat (length pre) + Z.of_nat (length W) <= lm)%Z ->
   absent (at_ (pre ++ W) post lm) fn 2 ->
-  rep_loop fuel fn elem (at_ pre (W ++ post) lm) = Ok (l, at_ (pre ++ W) post lm).
+  rep_loop fuel fn elem (at_ pre (W ++ post) lm) = Ok (map g l, at_ (pre ++ W) post lm).
 Proof.
-  intros A elem w ok fn lm Hfn Helem. induction l as [|v l IH]; intros fuel pre post Hok Hf W Hlm Habs.
-  - subst W. cbn [flat_map app] in *. rewrite app_nil_r in *.
+  intros A B elem w g ok fn lm Hfn Helem. induction l as [|v l IH]; intros fuel pre post Hok Hf W Hsm Hlm Habs.
+  - subst W. cbn [flat_map app map] in *. rewrite app_nil_r in *.
     destruct fuel; [lia|]. cbn [rep_loop].
     destruct (Z.leb_spec (lim (at_ pre post lm)) (Z.of_nat (idx (at_ pre post lm)))); [reflexivity|].
     destruct Habs as (e & He & Hs). rewrite He, Hs. reflexivity.
-  - inversion Hok as [|? ? Hv Hl]; subst. subst W. cbn [flat_map] in *.
+  - inversion Hok as [|? ? Hv Hl]; subst. subst W. cbn [flat_map map] in *.
     destruct fuel as [|fuel]; [cbn in Hf; lia|]. cbn [rep_loop idx lim at_].
     pose proof (enc_varint_nonempty (fn * 8 + 2)) as Hk. fold (write_key 2 fn) in Hk.
     assert (0 < length (write_key 2 fn))%nat by (destruct (write_key 2 fn); [congruence|cbn; lia]).
     rewrite !app_length in Hlm.
     destruct (Z.leb_spec lm (Z.of_nat (length pre))); [lia|].
     rewrite <- !app_assoc. rewrite check_at by (auto; try (right; reflexivity); lia).
-    rewrite Helem by assumption. cbn [bind].
+    rewrite Helem; [|assumption|rewrite !app_length in *; lia]. cbn [bind].
     specialize (IH fuel ((pre ++ write_key 2 fn) ++ w v) post Hl ltac:(cbn in Hf; lia)).
     cbn zeta in IH. rewrite IH.
     + cbn [bind]. rewrite <- !app_assoc. reflexivity.
+    + rewrite !app_length in *. lia.
     + rewrite !app_length. lia.
     + rewrite <- !app_assoc in *. exact Habs.
 Qed.
